@@ -609,13 +609,22 @@ func c09IdentifierCompare(p *Prog, r *Report, rule string) {
 	ifs := p.Func("parser", "IdentifierFromString")
 	var fb []string
 	quoteCmp := 0
-	eachInstr(ifs, func(in ssa.Instruction) {
-		if bo, ok := in.(*ssa.BinOp); ok && bo.Op == token.EQL {
-			if c, ok := constInt(bo.Y); ok && c == '"' {
-				quoteCmp++
-			}
+	quoteFns := []*ssa.Function{ifs}
+	eachCall(ifs, func(c ssa.CallInstruction) {
+		// a boolean helper over the text (isQuoted(id)) may hold the comparison
+		if callee := c.Common().StaticCallee(); callee != nil && callee.Blocks != nil && p.InRepo(callee) && len(predicateFacts(callee)) > 0 {
+			quoteFns = append(quoteFns, callee)
 		}
 	})
+	for _, qf := range quoteFns {
+		eachInstr(qf, func(in ssa.Instruction) {
+			if bo, ok := in.(*ssa.BinOp); ok && bo.Op == token.EQL {
+				if c, ok := constInt(bo.Y); ok && c == '"' {
+					quoteCmp++
+				}
+			}
+		})
+	}
 	if quoteCmp == 0 {
 		fb = append(fb, "no test for a leading double quote")
 	}
@@ -641,7 +650,7 @@ func c09IdentifierCompare(p *Prog, r *Report, rule string) {
 		sawCS = true
 		// must be dominated by a true comparison with '"'
 		g := false
-		for _, ct := range dominatingConds(st.Block()) {
+		for _, ct := range impliedConds(st.Block()) {
 			if bo, ok := ct.Cond.(*ssa.BinOp); ok && bo.Op == token.EQL && ct.Truth {
 				if c, ok := constInt(bo.Y); ok && c == '"' {
 					g = true
@@ -751,6 +760,57 @@ type memberRole struct {
 	fn         *ssa.Function
 	sliceParam int // index in fn.Params of the table, -1 when fn loads the global itself
 	g          *ssa.Global
+	wrappers   []*ssa.Function // name -> bool functions that only return fn(name, table)
+}
+
+// membershipWrapperOf: f(name) only returns helper(name, <table g>); gives the helper and the
+// index of its table parameter.
+func membershipWrapperOf(p *Prog, f *ssa.Function, g *ssa.Global) (*ssa.Function, int) {
+	var helper *ssa.Function
+	idx := -1
+	var theCall *ssa.Call
+	eachCall(f, func(c ssa.CallInstruction) {
+		callee := c.Common().StaticCallee()
+		cc, isCall := c.(*ssa.Call)
+		if callee == nil || callee.Blocks == nil || !p.InRepo(callee) || !isCall {
+			return
+		}
+		for i, a := range c.Common().Args {
+			for _, o := range origins(a) {
+				if ld, ok := o.(*ssa.UnOp); ok && sameGlobal(ld.X, g) {
+					helper, idx, theCall = callee, i, cc
+				}
+			}
+		}
+	})
+	if helper == nil || len(theCall.Call.Args) == 0 {
+		return nil, -1
+	}
+	// the queried name is passed on as the helper's first argument and every return is the helper's verdict
+	passes := false
+	for _, o := range origins(theCall.Call.Args[0]) {
+		if o == ssa.Value(f.Params[0]) {
+			passes = true
+		}
+		if al, ok := o.(*ssa.Alloc); ok && al.Comment == f.Params[0].Name() {
+			passes = true
+		}
+	}
+	if !passes {
+		return nil, -1
+	}
+	okRet := true
+	eachInstr(f, func(in ssa.Instruction) {
+		if ret, ok := in.(*ssa.Return); ok {
+			if len(ret.Results) != 1 || ret.Results[0] != ssa.Value(theCall) {
+				okRet = false
+			}
+		}
+	})
+	if !okRet {
+		return nil, -1
+	}
+	return helper, idx
 }
 
 func membershipRole(p *Prog, g *ssa.Global) *memberRole {
@@ -768,9 +828,14 @@ func membershipRole(p *Prog, g *ssa.Global) *memberRole {
 				eq = true
 			}
 		})
-		_ = eq
 		if loads && f.Signature.Results().Len() == 1 {
 			if b, ok := f.Signature.Results().At(0).Type().Underlying().(*types.Basic); ok && b.Kind() == types.Bool && len(f.Params) == 1 {
+				if !eq {
+					// a one-line wrapper `return helper(name, table)`: the test itself lives in the helper
+					if h, idx := membershipWrapperOf(p, f, g); h != nil {
+						return &memberRole{fn: h, sliceParam: idx, g: g, wrappers: []*ssa.Function{f}}
+					}
+				}
 				return &memberRole{fn: f, sliceParam: -1, g: g}
 			}
 		}
@@ -804,6 +869,11 @@ func membershipRole(p *Prog, g *ssa.Global) *memberRole {
 
 // isCall: the call is the membership test of this table; returns the tested identifier.
 func (m *memberRole) isCall(call ssa.CallInstruction) (ssa.Value, bool) {
+	for _, w := range m.wrappers {
+		if call.Common().StaticCallee() == w && len(call.Common().Args) > 0 {
+			return call.Common().Args[0], true
+		}
+	}
 	if call.Common().StaticCallee() != m.fn {
 		return nil, false
 	}
